@@ -148,6 +148,29 @@ theorem append_after_tail_read (rs : List Rec) (file t : Bytes) (hw : Written rs
   have hfr := appendAll_after_tail fix_present (written_is_frames rs file hw) t r ns hn h' ha
   rw [readAll_frames_append fix_present.cap hfr t', read_total t', read_total t]
 
+/-- **no stale bytes**: open a handle on ANY file `f` — damage anywhere, also in a non-final record with intact
+    frames of discarded transactions behind it.  The first acknowledged append leaves exactly the valid prefix of
+    `f` followed by the new frame: nothing of the old tail survives behind it. -/
+theorem first_append_exact (f : Bytes) (r : Rec) (hw : r.wf = true) (h' : Handle)
+    (ha : append WalFrame.Cfg.current (walOpen f) r = .ok h') :
+    ∃ base body, validPrefix WalFrame.Cfg.current f = .ok base ∧ h'.file = base ++ frame body ∧
+      decodeBody WalRec.Cfg.current body = .ok r ∧ h'.tailChecked = true := by
+  obtain ⟨base, body, h1, _, h3, h4, h5⟩ := append_inv fix_present (walOpen f) h' r hw ha
+  simp only [walOpen, Bool.false_eq_true, if_false] at h5
+  exact ⟨base, body, h5, h1, h3, h4⟩
+
+/-- **nothing is resurrected**: after reopening on ANY file `f` and at least one acknowledged append, the file
+    is exactly the frames of the records the reader accepted from `f` followed by the frames of the new records;
+    so the next open — whatever second tail `t'` follows — reads those records, the new ones, the complete records
+    of `t'`, and nothing else.  Stale checksum-valid frames of discarded transactions cannot come back. -/
+theorem no_resurrection (f : Bytes) (r : Rec) (ns : List Rec) (hn : ∀ q ∈ r :: ns, q.wf = true) (h' : Handle)
+    (ha : appendAll WalFrame.Cfg.current (walOpen f) (r :: ns) = .ok h') (t' : Bytes) :
+    IsFrames WalFrame.Cfg.current h'.file ((readAll WalFrame.Cfg.current f).1 ++ (r :: ns)) ∧
+    readAll WalFrame.Cfg.current (h'.file ++ t') =
+      ((readAll WalFrame.Cfg.current f).1 ++ (r :: ns) ++ (complete t').1, .eof (complete t').2) := by
+  have hfr := appendAll_any_file fix_present f r ns hn h' ha
+  exact ⟨hfr, by rw [readAll_frames_append fix_present.cap hfr t', read_total t']⟩
+
 /-- **append after any tail**: a transaction committed after reopening on `file ++ t` is recovered by the next
     open — with its exact operations, right after everything recovered before — whatever second tail `t'`
     (without a complete record at its head) a later crash leaves.  Trigger hypothesis as in `any_tail_partial`. -/
